@@ -66,7 +66,7 @@ Proof.
   destruct (N.eqb g g') eqn:E.
   - apply N.eqb_eq in E. subst g'. unfold flat3. simpl. rewrite map_app. simpl.
     rewrite <- !app_assoc. apply Permutation_app_head. simpl.
-    change ((g, p) :: flat3 r) with ([(g, p)] ++ flat3 r). apply Permutation_app_comm.
+    apply Permutation_cons_append.
   - unfold flat3 in *. simpl. rewrite <- app_assoc. apply Permutation_app_head. exact IH.
 Qed.
 
@@ -136,13 +136,21 @@ Qed.
 Definition consistent (st : list (name * N)) : Prop :=
   forall n u1 u2, In (n, u1) st -> In (n, u2) st -> u1 = u2.
 
+Lemma validate_cons d ren v n r st : n <> [] ->
+  validate_pairs d ren ((v, n) :: r) st =
+  if match dlookup n st with Some u => negb (N.eqb u v) | None => false end then Raise ValueError
+  else if match dlookup n d with Some u => negb (N.eqb u v) && negb (memN u ren) | None => false end then Raise ValueError
+  else validate_pairs d ren r ((n, v) :: st).
+Proof. destruct n; [congruence | reflexivity]. Qed.
+
 Lemma validate_pairs_spec d ren ps : forall st, consistent st -> validate_pairs d ren ps st = Ok tt ->
   (forall v1 v2 n, (In (v1, n) ps \/ In (n, v1) st) -> (In (v2, n) ps \/ In (n, v2) st) -> v1 = v2) /\
   (forall v n, In (v, n) ps -> n <> [] /\ (forall u, dlookup n d = Some u -> u = v \/ memN u ren = true)).
 Proof.
-  induction ps as [|[v n] r IH]; intros st Hc H; simpl in H.
+  induction ps as [|[v n] r IH]; intros st Hc H.
   - split; [|intros v n []]. intros v1 v2 n [[]|A] [[]|B]. eapply Hc; eassumption.
-  - destruct n as [|c n']; [discriminate|]. set (n := c :: n') in *.
+  - assert (Hne : n <> []) by (intros ->; discriminate H).
+    rewrite (validate_cons _ _ _ _ _ _ Hne) in H.
     destruct (match dlookup n st with Some u => negb (N.eqb u v) | None => false end) eqn:Edup; [discriminate|].
     destruct (match dlookup n d with Some u => negb (N.eqb u v) && negb (memN u ren) | None => false end) eqn:Ecl; [discriminate|].
     assert (Hc' : consistent ((n, v) :: st)).
@@ -159,8 +167,8 @@ Proof.
     + intros v1 v2 m A B. apply (P v1 v2 m).
       * destruct A as [[A|A]|A]; [inversion A; subst; right; left; reflexivity | left; exact A | right; right; exact A].
       * destruct B as [[B|B]|B]; [inversion B; subst; right; left; reflexivity | left; exact B | right; right; exact B].
-    + intros u m [X|X]; [|apply Q; exact X]. inversion X; subst. split; [discriminate|].
-      intros w Hw. fold n in Hw. rewrite Hw in Ecl. apply andb_false_iff in Ecl.
+    + intros u m [X|X]; [|apply Q; exact X]. inversion X; subst. split; [exact Hne|].
+      intros w Hw. rewrite Hw in Ecl. apply andb_false_iff in Ecl.
       destruct Ecl as [Ecl|Ecl]; apply negb_false_iff in Ecl; [left; apply N.eqb_eq; exact Ecl | right; exact Ecl].
 Qed.
 
@@ -298,3 +306,35 @@ Proof.
   - eapply same_but_trans; [exact S1|]. eapply same_but_trans; [|exact S3].
     repeat split; congruence.
 Qed.
+
+(* ---------- the hypotheses are satisfiable by a non-trivial state: graph 0 with initializers a, b
+   (b is also a graph input) and a plain value c; swapping a and b succeeds and is applied completely. *)
+Definition ex_a : name := [97]. Definition ex_b : name := [98]. Definition ex_c : name := [99].
+Definition ex_state : rstate :=
+  mkR (of_alist None [(0, Some ex_a); (1, Some ex_b); (2, Some ex_c)]) [(0, [(ex_a, 0); (ex_b, 1)])]
+      (of_alist false [(0, true); (1, true)]) (of_alist false [(1, true)])
+      (of_alist None [(0, Some 0); (1, Some 0)]) (fun _ => false).
+
+Example ex_state_RInv : RInv ex_state.
+Proof.
+  constructor.
+  - intros g k v H. unfold ex_state in H. simpl in H. destruct (N.eqb g 0) eqn:E; simpl in H.
+    + apply N.eqb_eq in E. subst g. destruct H as [H|[H|[]]]; inversion H; subst; vm_compute;
+        repeat split; try discriminate; tauto.
+    + destruct H.
+  - intros g. unfold ex_state. simpl. destruct (N.eqb g 0); simpl.
+    + constructor; [simpl; intros [H|[]]; discriminate | constructor; [tauto | constructor]].
+    + constructor.
+  - intros v H. unfold ex_state in *. simpl in *.
+    destruct (N.eqb v 0) eqn:E0.
+    + apply N.eqb_eq in E0. subst. exists 0, ex_a. simpl. auto.
+    + destruct (N.eqb v 1) eqn:E1; [|discriminate].
+      apply N.eqb_eq in E1. subst. exists 0, ex_b. simpl. auto.
+  - intros g v [].
+Qed.
+
+Example ex_swap :
+  let '(s', r) := rename_values [0; 1; 2] [ex_b; ex_a; ex_a] ex_state in
+  r = Ok tt /\ map (r_vn s') [0; 1; 2] = [Some ex_b; Some ex_a; Some ex_a] /\
+  r_inits s' = [(0, [(ex_b, 0); (ex_a, 1)])].
+Proof. vm_compute. auto. Qed.
